@@ -294,6 +294,19 @@ def rule_identity(repo: Repo) -> RuleResult:
                 neg = False
                 if isinstance(t, ast.UnaryOp) and isinstance(t.op, ast.Not):
                     t, neg = t.operand, True
+                # `existing = map.get(key)` ... `if existing is None:` establishes absence as well
+                if isinstance(t, ast.Compare) and len(t.ops) == 1 and isinstance(t.ops[0], (ast.Is, ast.IsNot, ast.Eq, ast.NotEq)) and \
+                        isinstance(t.comparators[0], ast.Constant) and t.comparators[0].value is None:
+                    looked_up = t.left
+                    if isinstance(looked_up, ast.Name):
+                        defs_ = [v_ for nm_, v_, _s in C.simple_bindings(f.node) if nm_ == looked_up.id]
+                        looked_up = defs_[0] if len(defs_) == 1 else looked_up
+                    if isinstance(looked_up, ast.Call) and isinstance(looked_up.func, ast.Attribute) and looked_up.func.attr == "get" and len(looked_up.args) == 1 \
+                            and isinstance(looked_up.func.value, ast.Name) and looked_up.func.value.id in maps:
+                        absent_when_true = isinstance(t.ops[0], (ast.Is, ast.Eq)) != neg
+                        in_body = any(cur is s or cur in ast.walk(s) for s in par.body)
+                        if (absent_when_true and in_body) or ((not absent_when_true) and not in_body):
+                            return True
                 if isinstance(t, ast.Compare) and len(t.ops) == 1 and isinstance(t.comparators[0], ast.Name) \
                         and t.comparators[0].id in maps:
                     is_in = isinstance(t.ops[0], ast.In) != neg if isinstance(t.ops[0], (ast.In, ast.NotIn)) else None
@@ -385,9 +398,21 @@ def rule_walk(repo: Repo) -> RuleResult:
         raise AnalysisError("is_sub_type_aux: two parameters expected")
     a, b = ps
 
+    p = L.prov(repo, f)
+
+    def tr(e):
+        try:
+            return p.trace(e)
+        except KeyError:
+            return set()
+
     def is_name_of(e, param):
-        return (isinstance(e, ast.Attribute) and e.attr == "name" and isinstance(e.value, ast.Name) and e.value.id == param) or \
-               (isinstance(e, ast.Name) and e.id == param)
+        t = tr(e)
+        return bool(t) and all(x in ((f"param:{param}", "attr:name"), (f"param:{param}",)) for x in t)
+
+    def is_parent_of(e, param):
+        t = tr(e)
+        return bool(t) and all(x == (f"param:{param}", "attr:parent") for x in t)
 
     def matcher(e):
         if isinstance(e, ast.Compare) and len(e.ops) == 1:
@@ -398,13 +423,12 @@ def rule_walk(repo: Repo) -> RuleResult:
                 if isinstance(e.ops[0], ast.NotEq):
                     return "!same"
             for x, y in ((l, rr), (rr, l)):
-                if isinstance(x, ast.Attribute) and x.attr == "parent" and isinstance(x.value, ast.Name) and x.value.id == a \
-                        and isinstance(y, ast.Constant) and y.value is None:
+                if isinstance(y, ast.Constant) and y.value is None and is_parent_of(x, a):
                     if isinstance(e.ops[0], (ast.Is, ast.Eq)):
                         return "root"
                     if isinstance(e.ops[0], (ast.IsNot, ast.NotEq)):
                         return "!root"
-        if isinstance(e, ast.Attribute) and e.attr == "parent" and isinstance(e.value, ast.Name) and e.value.id == a:
+        if isinstance(e, (ast.Attribute, ast.Name)) and isinstance(getattr(e, "ctx", None), ast.Load) and is_parent_of(e, a):
             return "!root"  # truthiness of my.parent
         return None
 
@@ -426,8 +450,7 @@ def rule_walk(repo: Repo) -> RuleResult:
             return str(v.value)
         if isinstance(v, ast.Call) and callee_name(v) == f.name and len(v.args) == 2:
             a0, a1 = v.args
-            if isinstance(a0, ast.Attribute) and a0.attr == "parent" and isinstance(a0.value, ast.Name) and a0.value.id == a \
-                    and isinstance(a1, ast.Name) and a1.id == b:
+            if is_parent_of(a0, a) and tr(a1) and all(x == (f"param:{b}",) for x in tr(a1)):
                 return "recurse(parent, other)"
             return f"recurse({unparse(a0)}, {unparse(a1)})"
         return f"other:{unparse(v) if v is not None else None}"
